@@ -31,8 +31,25 @@ def run(ctx):
             if '"ev":"reset"' in line[:60]:
                 continue
             (fm if '"ev":"mq"' in line[:60] else fo).write(line)
-    mshards = vlib.shard_trace(mqf, wd, vlib.NCPU, prefix="mq", max_bytes=6 << 20)
-    oshards = vlib.shard_trace(otf, wd, vlib.NCPU, prefix="ot", max_bytes=6 << 20)
+    def split_lines(path, prefix, max_bytes):
+        """events of these two files are self-contained (no scenario state): cut at any line boundary"""
+        files, cur, n = [], None, 0
+        target = max(max_bytes // 4, min(max_bytes, os.path.getsize(path) // vlib.NCPU + 1))
+        with open(path, "rb") as f:
+            for line in f:
+                if cur is None or n >= target:
+                    if cur:
+                        cur.close()
+                    fn = os.path.join(wd, "%s_%03d.ndjson" % (prefix, len(files)))
+                    cur, n = open(fn, "wb"), 0
+                    files.append(fn)
+                cur.write(line)
+                n += len(line)
+        if cur:
+            cur.close()
+        return files
+    mshards = split_lines(mqf, "mq", 6 << 20)
+    oshards = split_lines(otf, "ot", 6 << 20)
     # thorough: single events of 10^5 decisions are 5 MB lines with fifteen arrays: fewer, larger JVMs
     v1 = vlib.validate(wd, "MqTrace", mshards, timeout=3000 if ctx.quick else 14400, heap="3g" if ctx.quick else "7g",
                        parallel=None if ctx.quick else 6)
